@@ -1636,6 +1636,11 @@ class PyCdlib:
                                             current_extent - part_start)
 
                 if self.isohybrid_mbr is not None:
+                    if enc.entry is self.eltorito_boot_catalog.initial_entry and enc.platform_id != 0xef:
+                        # The hybrid MBR boots the image of the Initial/Default
+                        # Entry (the one add_isohybrid() checked).
+                        self.isohybrid_mbr.update_rba(current_extent)
+
                     if enc.platform_id == 0xef:
                         if num_seen_efi == 0:
                             self.isohybrid_mbr.update_efi(current_extent,
@@ -1647,8 +1652,6 @@ class PyCdlib:
                         else:
                             raise pycdlibexception.PyCdlibInternalError('Only expected two EFI sections')
                         num_seen_efi += 1
-                    elif enc.platform_id == 0:
-                        self.isohybrid_mbr.update_rba(current_extent)
 
                 current_extent = self._set_inode(enc.entry.inode, current_extent,
                                                  part_start)
